@@ -2122,6 +2122,7 @@ GENERATORS = {
     "GenSort.v": translate_sort,
     "GenAggNames.v": lambda src: translate_aggnames(src / "table.py"),
     "GenCsv.v": lambda src: translate_file(src / "csv.py", fresh(CSV_KERNELS), "GenCsv", IMPORTS_CSV),
+    "GenReduce.v": lambda src: __import__("harness.translate_reduce", fromlist=["translate_reduce"]).translate_reduce(src),
 }
 
 
@@ -2138,6 +2139,14 @@ def translate_each(repo_src: Path, outdir: Path, only=None):
             text, meta = make(repo_src)
         except TranslationError as e:
             failed[gf] = e
+            continue
+        except Exception as e:                               # noqa: BLE001
+            if type(e).__name__ != "TranslationError" and not isinstance(e, (OSError, SyntaxError, RecursionError)):
+                raise
+            if type(e).__name__ == "TranslationError":       # raised by a sibling translator module
+                failed[gf] = TranslationError(e.file, e.lineno, e.what)
+                continue
+            failed[gf] = TranslationError(repo_src, getattr(e, "lineno", 0) or 0, f"{type(e).__name__}: {e}")
             continue
         except (OSError, SyntaxError, RecursionError) as e:
             failed[gf] = TranslationError(repo_src, getattr(e, "lineno", 0) or 0, f"{type(e).__name__}: {e}")
@@ -2170,8 +2179,9 @@ SCRIPTS = [            # (committed proof script, generated modules it needs)
     ("EqCsv.v", ["GenCsv.v"]),
     ("EqSort.v", ["GenSort.v"]),
     ("EqAggNames.v", ["GenAggNames.v"]),
+    ("EqReduce.v", ["GenReduce.v"]),
 ]
-NEEDED_VO = ["Base/GenPrelude", "Props/C04", "Props/C07", "Props/C18", "Props/C11", "Props/C16", "Props/C05", "Props/C19", "Props/C14"]
+NEEDED_VO = ["Base/GenPrelude", "Props/C04", "Props/C07", "Props/C18", "Props/C11", "Props/C16", "Props/C05", "Props/C19", "Props/C14", "Props/C06", "Props/C12"]
 BUDGET = float(__import__("os").environ.get("SERIF_TRANSLATE_BUDGET", "28"))   # seconds for one run()
 
 HARD_TIMEOUT = 120.0   # seconds for one coqc that MUST run (generated file, first pass over a proof script)
